@@ -37,6 +37,16 @@ theorem projOut_same_side (G : Matrix n k K) (v : n → K) (h : IsUnit (Gᵀ * G
   conv_lhs => rw [hv]
   rw [add_dotProduct, hz, add_zero]
 
+/-- the un-normalised normal `w = projOut G ν` measures exactly the `ν`-component of any vector `G c + t ν`:
+`w · (G c + t ν) = t (w · w)`; with `G = dx·E` the mapped edge tangents and `ν = dx·ext` the mapped extension vector this says
+that the normal has a positive component along the image of every vector that leaves the element through the edge -/
+theorem projOut_side (G : Matrix n k K) (ν : n → K) (c : k → K) (t : K) (h : IsUnit (Gᵀ * G).det) :
+    projOut G ν ⬝ᵥ (G *ᵥ c + t • ν) = t * (projOut G ν ⬝ᵥ projOut G ν) := by
+  have ho := projOut_orthogonal G ν h
+  have hs := projOut_same_side G ν h
+  rw [dotProduct_add, dotProduct_smul, smul_eq_mul, dotProduct_comm _ ν, hs, dotProduct_mulVec, ← mulVec_transpose, ho,
+    zero_dotProduct, zero_add]
+
 /-- a vector in the tangent space is removed completely -/
 theorem projOut_tangent (G : Matrix n k K) (c : k → K) (h : IsUnit (Gᵀ * G).det) :
     projOut G (G *ᵥ c) = 0 := by
